@@ -128,7 +128,15 @@ class C12(Campaign):
                 role = pending.pop()
                 if shallow and rnd.random() < 0.7:
                     out.append({"op": "add_listener", "inst": "S", "listeners": [role]})
-                out.append({"op": "add_listener", "inst": inst, "listeners": [role]})
+                roles_ = [role]
+                if attached[inst] and rnd.random() < 0.4:
+                    # re-attaching the whole (grown) list in one call: attached ones first, new ones after
+                    roles_ = rnd.sample(attached[inst], rnd.randint(1, len(attached[inst]))) + [role]
+                    if pending and rnd.random() < 0.5:
+                        extra_role = pending.pop()
+                        roles_.append(extra_role)
+                        attached[inst].append(extra_role)
+                out.append({"op": "add_listener", "inst": inst, "listeners": roles_})
                 attached[inst].append(role)
             elif attached[inst] and r < 0.35:
                 out.append({"op": "add_listener", "inst": inst, "listeners": [rnd.choice(attached[inst])],
